@@ -175,6 +175,15 @@ CLAIMED = {
          "compilation (garbage collection of engines, diagnostics replay) is not decided.",
          "Trusted: rustc MIR; syn; dependencies lists are complete.",
          "DESIGN.md §3 C26"),
+ "C28": ("E-SW", "other", "address-provenance rule over every storage-primitive call site of the std storage collections (Sway tokenizer, let-resolution): who-may-address (never self.slot), sibling agreement of all methods on the two slot derivations, offset provenance, key-helper SPEC",
+         "Decides only the slot-derivation agreement behind the statement, for the default build: no StorageVec / StorageMap / StorageBytes / "
+         "StorageString method addresses storage through the parent's slot; every primitive call takes its slot from the collection's header "
+         "(self.field_id(), u64 at offset 0) or content (sha256(self.field_id()), element offsets from offset_calculator::<V>) derivation, so readers "
+         "and writers agree and different fields are separated by the hash; StorageMap derives every slot through one helper hashing (map domain, key, "
+         "field id); element handles carry sha256((index, content slot)). Operation histories -- shifting in insert/remove, length updates, the "
+         "primitives themselves -- are NOT decided.",
+         "Trusted: rules/lib/sw.py tokenizer; sha256 collision resistance; storage_api.sw / storable_slice.sw primitives.",
+         "DESIGN.md §9.2 C28"),
  "C29": ("E-TAB+E-MIR", "other", "finite-domain abstract evaluation of TestResult::passed over its syntax tree (4 expectations x 8 final states, exact for every case the code can distinguish); MIR provenance rules for per-test setup, storage cloning and reported fields",
          "Decides: the pass/fail verdict equals the stated table on a finite domain that separates ShouldRevert(Some c) / ShouldRevert(None) / "
          "ShouldNotRevert and Revert(c) / Revert(c') / non-revert states; every test's executor receives a TestSetup produced inside the per-test "
@@ -203,7 +212,6 @@ NOT_APPLICABLE = {
  "C18": "Idempotence f(f(x))=f(x) depends on width heuristics and comment placement; no necessary structural clause exists.",
  "C17": "Panic-freedom of the whole compile pipeline: the cone of compile_to_asm has thousands of unwrap/expect/index/unreachable sites whose unreachability rests on type-checker invariants not visible in the shape of the code; the local-guard discharge that decides C16/C21/C23 leaves them open, and a reviewed-site table of that size would be a frozen list, not a decision.",
  "C27": "Agreement of std collections / wide arithmetic with reference models quantifies over run-time histories and values of Sway library code.",
- "C28": "Storage collections vs models quantifies over run-time histories; its one structural clause (storage domain separation) is decided under C12.",
 }
 PENDING = "check not built yet in this round (design in DESIGN.md §3); not claimed until it runs clean on the unchanged tree"
 
